@@ -18,6 +18,9 @@ Record caseBil := {
   l_val : list Z;                       (* NumPy's value at (A, B) *)
   l_vjpA : list Z; l_vjpB : list Z;     (* implementation: make_vjp w.r.t. each argument, applied to g *)
   l_jvpA : option (list Z); l_jvpB : option (list Z);   (* implementation: make_jvp; None when forward mode raises *)
+  (* second order: u a cotangent for the A-cotangent;  the VJP of g |-> vjpA(g, B) and of B |-> vjpA(g, B) applied to u, and
+     the JVP of B |-> vjpA(g, B) in direction dB;  None when the implementation raises *)
+  l_u : list Z; l_vvg : option (list Z); l_vvB : option (list Z); l_fvB : option (list Z);
   l_ok : bool
 }.
 
@@ -30,11 +33,15 @@ Definition checkbil (c : caseBil) : nat :=
      && zl_eqb (zvjpB c.(l_nb) c.(l_S) c.(l_g) c.(l_A)) c.(l_vjpB)
      && oeq (zbil c.(l_no) c.(l_S) c.(l_dA) c.(l_B)) c.(l_jvpA)
      && oeq (zbil c.(l_no) c.(l_S) c.(l_A) c.(l_dB)) c.(l_jvpB)
+     && oeq (zbil c.(l_no) c.(l_S) c.(l_u) c.(l_B)) c.(l_vvg)
+     && oeq (zvjpB c.(l_nb) (map (permA Z) c.(l_S)) c.(l_u) c.(l_g)) c.(l_vvB)
+     && oeq (zvjpA c.(l_na) c.(l_S) c.(l_g) c.(l_dB)) c.(l_fvB)
   then 0%nat else 1%nat.
 
 (* the dot product of two 2-vectors *)
 Example checkbil_ex :
   checkbil {| l_na := 2; l_nb := 2; l_no := 1; l_S := [mk 0 0 0 1; mk 1 1 0 1];
               l_A := [2; 3]; l_B := [5; 7]; l_g := [2]; l_dA := [1; -1]; l_dB := [0; 1]; l_val := [31];
-              l_vjpA := [10; 14]; l_vjpB := [4; 6]; l_jvpA := Some [-2]; l_jvpB := Some [3]; l_ok := true |} = 0%nat.
+              l_vjpA := [10; 14]; l_vjpB := [4; 6]; l_jvpA := Some [-2]; l_jvpB := Some [3];
+              l_u := [1; 2]; l_vvg := Some [19]; l_vvB := Some [2; 4]; l_fvB := Some [0; 2]; l_ok := true |} = 0%nat.
 Proof. vm_compute. reflexivity. Qed.
